@@ -233,6 +233,10 @@ def base_cfgs(seed, nrand, eager_limit, **extra):
     # ... or in a node-level callback (call 3 is the first on_node_complete, call 5 the second one / a later node_start)
     for k in (3, 5):
         cfgs.append(dict(policy=['random', seed * 100003 + 960 + k, 0.8], collab={'ev2': {'raise_at': [k]}}, faulty=True, **extra))
+    # ... or a manager registered BEFORE the recording one raises (the last callback it gets is call 1 + 2 * nodes + 1; a
+    # large index hits on_pipeline_complete of small programs, small ones hit node callbacks)
+    for k in (1, 4, 7):
+        cfgs.append(dict(policy=['random', seed * 100003 + 970 + k, 0.8], collab={'ev0': {'raise_at': [k]}}, faulty=True, **extra))
     return cfgs
 
 
